@@ -47,6 +47,11 @@ LEVEL_TEXT += (
     "split_bases forwards cells / facets / side like the other derived "
     "bases; the supermesh quadrature evaluates every map at points of "
     "its own reference frame.")
+LEVEL_TEXT += (
+    " Added in the second hunting round (DESIGN.md 9.6): "
+    "the 1-D supermesh is built from its operands' nodes with a merge "
+    "that is invariant under translation and change of unit "
+    "(skv/invariance.py).")
 LEVEL_NOTE = ("Trusted: numpy abs/broadcast_to; the quadrature rules deliver "
               "their degree (C08); determinants are those of C10.")
 EXPLANATION = "Symbolic constructor runs + degree audit of local bases."
